@@ -137,7 +137,8 @@ pub fn explore(opts: &Opts) -> Explored {
                     // `.tracked()` at one point of the construction (a no-op for the mathematics)
                     let mut variants: Vec<Program> = vec![p.clone()];
                     for v in p.nl()..p.nv() {
-                        if !t[v] {
+                        // handle deviations are explored for programs of up to 4 operation nodes
+                        if !t[v] || p.nodes.len() > 4 {
                             continue;
                         }
                         for k in (v - p.nl())..p.nodes.len() {
@@ -192,7 +193,7 @@ pub fn explore(opts: &Opts) -> Explored {
     }
     Explored {
         local: total,
-        bounds: json!({"spaces": stats, "leaves": 2, "masks": "all 4", "roots": "every op node", "handle_deviations": "0 or 1 re-binding of a tracked op node through .tracked() at any later point of the construction", "self_product_chain_depths": format!("1..{}", max_depth)}),
+        bounds: json!({"spaces": stats, "leaves": 2, "masks": "all 4", "roots": "every op node", "handle_deviations": "0 or 1 re-binding of a tracked op node through .tracked() at any later point of the construction (programs of up to 4 op nodes)", "self_product_chain_depths": format!("1..{}", max_depth)}),
         rule: "every DAG in which every operation is a user op supplied through Array::op x masks x roots: per pass every reachable op node's closure is logged exactly once, unreachable ones never, with the complete adjoint (reference forward mode), the operand-tracking flags of the operation, and after all its consumers; self-product chains up to depth 24 need exactly depth invocations".into(),
         exhaustive: true,
         assumptions: vec!["the verdict uses user closures only; built-in derivative invocations are not part of it".into()],
